@@ -42,7 +42,7 @@ PROPS = {
         'mc_quick': ['MC_quick.cfg'], 'mc_thorough': MC_THOROUGH,
         'title': 'Cache transparency',
         'units': [('swap', 1200, 15000), ('subcache', 600, 8000), ('subcacheq', 300, 4000), ('general', 1500, 30000), ('nested', 1500, 30000), ('selfnest', 400, 6000), ('keys', 500, 6000), ('rebuild', 500, 10000), ('foreign', 500, 8000),
-                  ('clean', 300, 4000), ('regress', 0, 0)],
+                  ('clean', 300, 4000), ('linkstale', 60, 600), ('regress', 0, 0)],
         # a stale answer anywhere (C01: "always shows up in the result exactly as from scratch")
         'owned': C01_CLAUSES,
         'nontrivial': lambda st, sc: st['reuse'] > 0 and st['invfound'] > 0,
